@@ -154,6 +154,47 @@ pub fn check(src: &str, form: &str, ops: &[&str], acc: &mut Acc) {
     }
 }
 
+/// `with_block` is `plain` plus one side-effect block after an atom: its real tree, blocks removed, must be the
+/// reference tree of `plain`
+fn check_with_block(plain: &str, with_block: &str, acc: &mut Acc) {
+    let want = match lex_g(plain).ok().and_then(|t| refparse(&t)) {
+        Some(w) => w,
+        None => return,
+    };
+    // only where the block-free text is accepted with the dictated tree (anything else is reported by `check`)
+    match lex_g(plain).ok().and_then(|t| parse_g(&t).ok()).and_then(|p| actual_tree(&p).ok()) {
+        Some(t) if t == want => {}
+        _ => return,
+    }
+    acc.evals += 1;
+    let payload = || Json::obj().with("source", Json::s(with_block)).with("block_free", Json::s(plain));
+    let toks = match lex_g(with_block) {
+        Ok(t) => t,
+        Err(_) => return,
+    };
+    match parse_g(&toks) {
+        Ok(p) => match actual_tree(&p) {
+            Ok(t) => {
+                acc.count("trees_with_block_compared");
+                let stripped = crate::props::c18::strip_effects(&crate::props::c18::norm_effects(&t));
+                if stripped.strip_groups() != want.strip_groups() {
+                    acc.violation(
+                        "wrong-tree|with-side-effect-block".to_string(),
+                        format!("parse({:?}) = {} which, blocks removed, is not the tree the table dictates for {:?}: {}", with_block, t.sexpr(), plain, want.sexpr()),
+                        payload(),
+                    );
+                }
+            }
+            Err(e) => acc.violation("malformed-tree|with-side-effect-block".to_string(), format!("parse({:?}) returned a malformed tree: {}", with_block, e), payload()),
+        },
+        Err(Fail::Panic(_, msg, loc)) => acc.violation(format!("panic|{}|with-side-effect-block", panic_site(&loc)), format!("parse({:?}) panicked: {} at {}", with_block, msg, loc), payload()),
+        Err(Fail::Err(_, e)) => {
+            acc.count("with_block_rejected");
+            acc.seen("with_block_rejections", e.chars().take(70).collect::<String>());
+        }
+    }
+}
+
 fn run_items(items: Vec<String>, form: &str, ops: &[&str], acc: &mut Acc) {
     let a = spaced(&items);
     check(&a, form, ops, acc);
@@ -299,13 +340,26 @@ pub fn run(ctx: &Ctx) -> (Acc, String, bool) {
             let src = if r.chance(1, 2) { spaced(&items) } else { tight(&items) };
             acc.distinct.insert(fnv_str(&src));
             check(&src, "random", &[], acc);
+            // the same expression with a side-effect block after one of its atoms: apart from the block the tree is
+            // the one the table dictates for the block-free text
+            if r.chance(1, 3) {
+                let atoms: Vec<usize> = (0..items.len())
+                    .filter(|k| ATOMS.contains(&items[*k].as_str()) && items.get(k + 1).map(|n| !PRE.contains(&n.as_str()) && n != "(" && n != "{").unwrap_or(true))
+                    .collect();
+                if !atoms.is_empty() {
+                    let k = atoms[r.below(atoms.len())];
+                    let mut with_block = items.clone();
+                    with_block[k] = format!("{} [{}]", items[k], *r.pick(&["5", "1 + 2", "x"]));
+                    check_with_block(&spaced(&items), &spaced(&with_block), acc);
+                }
+            }
             if i % 10_007 == 0 {
                 acc.sample(Json::s(format!("random expression {:?}", src)));
             }
         }
     });
     let rule = format!(
-        "exhaustive: every ordered pair of {} binary forms (all binary operator spellings, implicit space list, comma, conditionals, else, apply forms, infix identifier, separators), {} prefix and {} suffix operators in 8 pair shapes; {} triples a B b B c B d {}; every unary operator around the middle operand of every binary pair; each in a spaced and a tight layout; plus {} random expressions (depth <= {}) with groups and nested expressions. Oracles: tree equality with the reference precedence parser, and equality with the tree of the fully parenthesised text modulo group nodes.",
+        "exhaustive: every ordered pair of {} binary forms (all binary operator spellings, implicit space list, comma, conditionals, else, apply forms, infix identifier, separators), {} prefix and {} suffix operators in 8 pair shapes; {} triples a B b B c B d {}; every unary operator around the middle operand of every binary pair; each in a spaced and a tight layout; plus {} random expressions (depth <= {}) with groups and nested expressions, a third of them once more with a side-effect block after one atom (tree modulo the block). Oracles: tree equality with the reference precedence parser, and equality with the tree of the fully parenthesised text modulo group nodes.",
         BIN.len(),
         PRE.len(),
         SUF.len(),
